@@ -103,3 +103,125 @@ class Image:
         if s is None:
             return None
         return self.words(s.sh_addr, s.sh_size // 8)
+
+
+# --------------------------------------------------------------------------- reference-linker cache
+# GNU ld's result for a member is a pure function of (ld version, flags, input bytes).  Process
+# creation is the scarce resource of this sandbox, so the *observation* made on GNU ld's output
+# is memoised on disk exactly like vlib.assemble memoises gas.  wild is never cached.
+import hashlib
+import json
+import os
+
+_FILE_SHA = {}
+
+
+def file_digest(path):
+    k = _FILE_SHA.get(path)
+    if k is None:
+        with open(path, "rb") as f:
+            k = _FILE_SHA[path] = hashlib.sha256(f.read()).hexdigest()
+    return k
+
+
+def ref_key(schema, ldver, flags, files, extra=""):
+    """files: input paths in command-line order (their bytes, not their names, enter the key)."""
+    h = hashlib.sha256()
+    for part in [schema, ldver, "\x1f".join(flags), extra] + [file_digest(p) for p in files]:
+        h.update(part.encode() + b"\0")
+    return h.hexdigest()[:32]
+
+
+def ref_get(cache_dir, key):
+    try:
+        with open(os.path.join(cache_dir, key[:2], key + ".json")) as f:
+            return json.load(f)
+    except (OSError, ValueError):
+        return None
+
+
+def ref_put(cache_dir, key, value):
+    d = os.path.join(cache_dir, key[:2])
+    os.makedirs(d, exist_ok=True)
+    tmp = os.path.join(d, f".{key}.{os.getpid()}")
+    with open(tmp, "w") as f:
+        json.dump(value, f)
+    os.replace(tmp, os.path.join(d, key + ".json"))
+
+
+def ld_version():
+    import subprocess
+    r = subprocess.run(["ld", "--version"], stdout=subprocess.PIPE, stderr=subprocess.PIPE)
+    return r.stdout.decode("utf-8", "replace").split("\n")[0].strip()
+
+
+# --------------------------------------------------------------------------- tagged sites / markers
+SITE_TAG = 0x5349544500000000          # 'SITE' << 32 | site id : the word after it is the site
+MARK_HEAD, MARK_TAIL = 0xB8, b"RM"     # a definition starts with B8 <id lo> <id hi> 'R' 'M'
+
+
+def marker_bytes(mid):
+    """5 bytes: as code `mov $0x4d52<id>, %eax`; as data just a recognisable header."""
+    return bytes([MARK_HEAD, mid & 0xff, mid >> 8 & 0xff]) + MARK_TAIL
+
+
+def find_sites(e):
+    """Scan the file-backed part of every PT_LOAD at 8-byte alignment for SITE tags.
+    -> {site id: [vaddr of the word following the tag, ...]}"""
+    out = {}
+    pat = struct.pack("<I", SITE_TAG >> 32)
+    for p in e.segments:
+        if p.p_type != elfread.PT_LOAD or not p.p_filesz:
+            continue
+        data = p.data
+        i = data.find(pat)
+        while i >= 0:
+            va = p.p_vaddr + i - 4
+            if i >= 4 and va % 8 == 0:
+                sid = struct.unpack_from("<I", data, i - 4)[0]
+                out.setdefault(sid, []).append(va + 8)
+            i = data.find(pat, i + 1)
+    return out
+
+
+def _image_target(self, vaddr):
+    """What the 8-byte word at vaddr refers to, independent of the output's .symtab where
+    possible: ('mark', id) the address of a definition carrying marker id; ('name', n) a load-time
+    lookup of n (dynamic relocation against n, or the address of a symbol that is undefined here /
+    of a copy of it: canonical PLT entry, copy relocation); ('zero',); ('other', text)."""
+    r = self.by_off.get(vaddr)
+    if r is not None:
+        rtype, name, addend = r
+        if rtype == R_X86_64_RELATIVE:
+            return self._addr_target(addend)
+        if rtype in (R_X86_64_64, R_X86_64_GLOB_DAT, R_X86_64_JUMP_SLOT) and name and not addend:
+            return ("name", name)
+        return ("other", "reloc:%d:%s:%s" % (rtype, name, addend))
+    v = self.e.read_u64(vaddr)
+    if v == 0 and vaddr not in self.relr:
+        return ("zero",)
+    return self._addr_target(v)
+
+
+def _addr_target(self, addr):
+    try:
+        b = self.e.read_vaddr(addr, 5)
+    except elfread.ElfError:
+        b = b""
+    if len(b) == 5 and b[0] == MARK_HEAD and b[3:5] == MARK_TAIL:
+        return ("mark", b[1] | b[2] << 8)
+    if not hasattr(self, "_all_by_addr"):
+        m = {}
+        for which in (".symtab", ".dynsym"):
+            for s in self.e.symbols(which):
+                if s.name and s.value and s.type not in (elfread.STT_SECTION, elfread.STT_FILE):
+                    m.setdefault(s.value, set()).add(s.name)
+        self._all_by_addr = m
+    names = self._all_by_addr.get(addr)
+    if names:
+        return ("name", "|".join(sorted(names)))
+    return ("other", "addr:%#x" % addr)
+
+
+Image.target = _image_target
+Image._addr_target = _addr_target
